@@ -58,7 +58,10 @@ def install_contract():
     import ford.md_admonition as ma
 
     f = ma.AdmonitionPreprocessor.run
+    if getattr(f, "_vf_contract", False):
+        return  # already attached in this process (a worker handles several chunks)
     g = icontract.snapshot(_snap_seq, name="seq")(icontract.snapshot(_snap_raw, name="raw")(icontract.ensure(_post_admon, error=ContractBroken)(f)))
+    g._vf_contract = True
     ma.AdmonitionPreprocessor.run = g
 
 
